@@ -496,7 +496,8 @@ func (r *sysRun) exitAudit() []string {
 	if ents, err := os.ReadDir(os.TempDir()); err == nil {
 		for _, e := range ents {
 			if strings.HasPrefix(e.Name(), "fzf-temp-") {
-				out = append(out, "temporary file left behind: "+e.Name())
+				data, _ := os.ReadFile(os.TempDir() + "/" + e.Name())
+				out = append(out, fmt.Sprintf("temporary file left behind: %s (content %q)", e.Name(), clip(data)))
 			}
 		}
 	}
